@@ -81,6 +81,26 @@ type c15World struct {
 	secIdx map[int]int // primary dialer index -> index in the second group
 	st     *VStream
 	stats  *VStats
+	// concurrency extension (c15conc_test.go): callback-window actions, reports taken and delivered
+	// separately; cbHook is called from the group's aliveChangeCallback (i.e. inside the window)
+	conc     *c15Conc
+	cbHook   func(tIdx int, alive, isInit bool)
+	logInfo  bool
+	useAlias bool // the next report names TCP by its TCP-DNS network type (same health domain)
+}
+
+// nt: the network type a report is made with: the standard one of the health domain, or — for the TCP
+// domains, when useAlias is set — the TCP-DNS type {tcp, IsDns:true}, which shares the domain.
+func (w *c15World) nt(t int) *dialer.NetworkType {
+	if w.useAlias && (t == 2 || t == 3) {
+		a := *w.types[t]
+		a.IsDns = true
+		if a.Index() == w.types[t].Index() {
+			w.stats.Inc("ev.report_named_tcp_dns_alias")
+			return &a
+		}
+	}
+	return w.types[t]
 }
 
 func c15NewDialer(opt *dialer.GlobalOption, name string) *dialer.Dialer {
@@ -101,7 +121,7 @@ func c15NewWorld(st *VStream, stats *VStats, n int, logInfo bool, big bool) *c15
 	} else {
 		lg.SetLevel(logrus.PanicLevel)
 	}
-	w := &c15World{n: n, st: st, stats: stats, lastSel: -1, lastBest: map[int]string{}}
+	w := &c15World{n: n, st: st, stats: stats, lastSel: -1, lastBest: map[int]string{}, logInfo: logInfo}
 	w.opt = &dialer.GlobalOption{Log: lg, CheckInterval: 30 * time.Second}
 	if big {
 		// a long check interval lets the backoff penalty take several values (1 s .. 20 s)
@@ -208,6 +228,9 @@ func (w *c15World) makeGroup(tol int64, pol consts.DialerSelectionPolicy, fixedI
 					s += "i"
 				}
 				w.cbs = append(w.cbs, s)
+				if w.cbHook != nil {
+					w.cbHook(w.typeIdx(nt), alive, isInit)
+				}
 			})
 		w.policy = pol
 		return w.takeCbs() + " " + w.groupDump()
@@ -282,11 +305,12 @@ func (w *c15World) mirrorTold(t, d int, op string) {
 }
 
 func (w *c15World) sample(t, d int, lat int64) {
+	w.winArm(t)
 	out := VRecover(func() string {
-		dialer.VerifC15Sample(w.dialers[d], w.types[t], time.Duration(lat))
+		dialer.VerifC15Sample(w.dialers[d], w.nt(t), time.Duration(lat))
 		return w.afterTell(t, d)
 	})
-	w.st.Emit(fmt.Sprintf("sample %d %d %d", t, d, lat), out)
+	w.winEmit(t, fmt.Sprintf("sample %d %d %d", t, d, lat), out)
 	w.mirrorTold(t, d, "sample %d %d "+strconv.FormatInt(lat, 10))
 	w.syncPens(d)
 }
@@ -297,12 +321,18 @@ func (w *c15World) probe(t, d int, outcome int, periodic, resus bool) {
 	var kind string
 	var lat time.Duration
 	var alive bool
+	if outcome == 2 {
+		// the penalty the sets will read is the one after the failure is recorded: no window here
+		// (the `pen` line has to precede the `told` line), see fail() for windowed failures
+	} else {
+		w.winArm(t)
+	}
 	pre := VRecover(func() string {
-		kind, lat, alive = dialer.VerifC15Probe(w.dialers[d], w.types[t], outcome, periodic, resus)
+		kind, lat, alive = dialer.VerifC15Probe(w.dialers[d], w.nt(t), outcome, periodic, resus)
 		return ""
 	})
 	if pre != "" {
-		w.st.Emit(fmt.Sprintf("told %d %d 0", t, d), pre)
+		w.winEmit(t, fmt.Sprintf("told %d %d 0", t, d), pre)
 		return
 	}
 	w.stats.Inc("ev.probe_via_check." + kind)
@@ -311,7 +341,7 @@ func (w *c15World) probe(t, d int, outcome int, periodic, resus bool) {
 	}
 	switch kind {
 	case "sample":
-		w.st.Emit(fmt.Sprintf("sample %d %d %d", t, d, int64(lat)), VRecover(func() string { return w.afterTell(t, d) }))
+		w.winEmit(t, fmt.Sprintf("sample %d %d %d", t, d, int64(lat)), VRecover(func() string { return w.afterTell(t, d) }))
 		w.mirrorTold(t, d, "sample %d %d "+strconv.FormatInt(int64(lat), 10))
 		w.syncPens(d)
 	case "told":
@@ -324,6 +354,7 @@ func (w *c15World) probe(t, d int, outcome int, periodic, resus bool) {
 		w.mirrorTold(t, d, "told %d %d "+a)
 	default:
 		// skip: nothing may have changed; `same` asks the model to print the domain's set again
+		w.winDisarm()
 		w.st.Emit(fmt.Sprintf("same %d", t), VRecover(func() string {
 			if w.g == nil {
 				return "nogroup"
@@ -445,13 +476,14 @@ func (w *c15World) floor(fb ReloadSelectionFallback) {
 			xs[t] = "-"
 		}
 	}
-	// which (domain, node) flags were down before: MarkAliveForReloadFallback raises exactly those it
-	// touches (the floor acts only on empty sets), and the second group must be told about them too
-	var before [6][]bool
+	// which (domain, node) pairs does the floor tell?  It acts only on EMPTY sets and marks exactly one
+	// candidate alive there (MarkAliveForReloadFallback tells every registered set, the second group's
+	// included — also when the flag was up already because an update about it is still in flight): the
+	// pairs are read off the group's own sets, empty before and holding one member afterwards.
+	emptyBefore := [6]bool{}
 	for t := 0; t < 6; t++ {
-		before[t] = make([]bool, w.n)
-		for d := 0; d < w.n; d++ {
-			before[t][d] = w.dialers[d].MustGetAlive(w.types[t])
+		if set := w.g.currentSelectionState().aliveDialerSets[w.types[t].Index()]; set != nil {
+			emptyBefore[t] = set.Len() == 0
 		}
 	}
 	out := VRecover(func() string {
@@ -461,8 +493,12 @@ func (w *c15World) floor(fb ReloadSelectionFallback) {
 	})
 	w.st.Emit("floor "+strings.Join(xs, ","), out)
 	for t := 0; t < 6; t++ {
+		set := w.g.currentSelectionState().aliveDialerSets[w.types[t].Index()]
+		if !emptyBefore[t] || set == nil || set.Len() != 1 {
+			continue
+		}
 		for d := 0; d < w.n; d++ {
-			if !before[t][d] && w.dialers[d].MustGetAlive(w.types[t]) {
+			if md, _ := set.GetMinLatency(nil); md == w.dialers[d] || (md == nil && set.GetRand() == w.dialers[d]) {
 				w.mirrorTold(t, d, "told %d %d 1")
 			}
 		}
@@ -500,7 +536,7 @@ func (w *c15World) fail(t, d int, force, traffic bool) {
 	var alive bool
 	var inform func()
 	pre := VRecover(func() string {
-		alive, inform = dialer.VerifC15Fail(w.dialers[d], w.types[t], force, traffic)
+		alive, inform = dialer.VerifC15Fail(w.dialers[d], w.nt(t), force, traffic)
 		return ""
 	})
 	if pre != "" {
@@ -512,26 +548,29 @@ func (w *c15World) fail(t, d int, force, traffic bool) {
 	if alive {
 		a = "1"
 	}
+	w.winArm(t)
 	out := VRecover(func() string {
 		inform()
 		return w.afterTell(t, d)
 	})
-	w.st.Emit(fmt.Sprintf("told %d %d %s", t, d, a), out)
+	w.winEmit(t, fmt.Sprintf("told %d %d %s", t, d, a), out)
 	w.mirrorTold(t, d, "told %d %d "+a)
 }
 
 func (w *c15World) traffic(t, d int) {
 	var told bool
+	w.winArm(t)
 	out := VRecover(func() string {
 		told = dialer.VerifC15Traffic(w.dialers[d], w.types[t])
 		return w.afterTell(t, d)
 	})
 	if told || strings.HasPrefix(out, "crash:") {
-		w.st.Emit(fmt.Sprintf("told %d %d 1", t, d), out)
+		w.winEmit(t, fmt.Sprintf("told %d %d 1", t, d), out)
 		w.mirrorTold(t, d, "told %d %d 1")
 		w.syncPens(d)
 		w.stats.Inc("ev.traffic_revival")
 	} else {
+		w.winDisarm()
 		w.stats.Inc("ev.traffic_noop")
 	}
 }
@@ -801,6 +840,8 @@ func (w *c15World) event(r *VRand, tol int64, fam int) {
 	}
 	t := w.pickType(r, fam)
 	d := r.Intn(w.n)
+	w.useAlias = (t == 2 || t == 3) && r.Chance(0.3)
+	defer func() { w.useAlias = false }()
 	if w.big && r.Chance(0.12) {
 		w.setLevel(t, d, r.Intn(7))
 		return
@@ -849,7 +890,13 @@ func (w *c15World) event(r *VRand, tol int64, fam int) {
 		}
 		w.stats.Inc("ev.kill_all_of_domain")
 	default:
-		w.traffic(4+r.Intn(2), d)
+		// successful proxied traffic: revives data-UDP only; for the other domains the real code decides
+		// that nothing is told
+		if r.Chance(0.8) {
+			w.traffic(4+r.Intn(2), d)
+		} else {
+			w.traffic(t, d)
+		}
 	}
 }
 
@@ -966,7 +1013,13 @@ func c15Scenario(r *VRand, st *VStream, st2 *VStream, stats *VStats, nOps int, o
 		}
 		s.makeGroup(c15PickTol(r, big), c15PickPolicy(r), s.pickFixed(r), offs2)
 	}
+	if c15ConcCfg != nil {
+		w.conc = c15ConcCfg(w, r, tol, fam)
+	}
 	for i := 0; i < nOps; i++ {
+		if w.conc != nil && w.conc.step(w, r, tol, fam) {
+			continue
+		}
 		if s := w.sec; s != nil && r.Chance(0.15) {
 			// the second group's own life: policy switches, selections, events on its own dialer
 			switch y := r.Intn(10); {
@@ -1001,6 +1054,9 @@ func c15Scenario(r *VRand, st *VStream, st2 *VStream, stats *VStats, nOps int, o
 			stats.Inc("op.rand")
 		}
 	}
+	if w.conc != nil {
+		w.conc.finish(w, r)
+	}
 	_ = w.g.Close()
 	if w.sec != nil {
 		_ = w.sec.g.Close()
@@ -1032,6 +1088,34 @@ func TestVerifC15(t *testing.T) {
 	}
 	st2.Close()
 	stats.Add("ops_oob", st2.N)
+
+	// the concurrent parts (c15conc_test.go).  First the two race witnesses (own stream, found by name);
+	// whether the first one crashed decides a carve-out of the random in-window actions.
+	st5 := VOpenStream("c15race")
+	c15WinCrashPresent = c15RaceWindowPolicySwitch(st5, stats)
+	if c15WinCrashPresent {
+		stats.Inc("race.window_policy_switch_witness_crashed")
+	}
+	c15RaceBuildWindow(st5, stats)
+	st5.Close()
+	// then the generator's scenarios with callback-window actions and/or deferred deliveries
+	st4 := VOpenStream("c15conc")
+	st4g2 := VOpenStream("c15concg2")
+	c15ConcCfg = func(w *c15World, r *VRand, tol int64, fam int) *c15Conc {
+		x := r.Intn(10)
+		return c15NewConc(w, r, tol, fam, x < 7, x >= 4)
+	}
+	nConc := nScen/2 + 10
+	if VThorough() {
+		nConc = nScen/4 + 10
+	}
+	for i := 0; i < nConc; i++ {
+		c15Scenario(r, st4, st4g2, stats, 20+r.Intn(maxOps), false)
+	}
+	c15ConcCfg = nil
+	st4.Close()
+	st4g2.Close()
+	stats.Add("ops_conc", st4.N)
 
 	// own stream (found by name, not by position)
 	st3 := VOpenStream("c15wit")
